@@ -530,3 +530,81 @@ def check_marking(facts, rep, fns=(r'sparse::pivot::RowWorker::init$', r'sparse:
                           where=b.where())
         else:
             rep.ok('E5.L5-complete-marking', inst, '%d iteration path(s), each calls set_candidate / set_occupied on the column' % n_iter)
+
+
+# ---------------------------------------------------------------------------------------------------------------
+# L6: no value read in one critical section may be written back in another (stale read / lost update)
+
+_ACQ = ('std::sync::Mutex::<T>::lock', 'std::sync::RwLock::<T>::write', 'std::sync::RwLock::<T>::read',
+        'yui::util::sync::SyncCounter::lock')      # by def path suffix match below
+
+
+def _lock_sites(t, pre_of):
+    """lock acquisitions a term's value was computed under: {(site, text of the mutex operand)}"""
+    from symex import subterms, show
+    out = set()
+    for x in subterms(t):
+        if not (isinstance(x, tuple) and x and x[0] == 'call'):
+            continue
+        nm = x[1]
+        if nm.endswith('Mutex::<T>::lock') or nm.endswith('RwLock::<T>::write') or nm.endswith('RwLock::<T>::read'):
+            out.add((x[3], re.sub(r'#\d+\.\d+', '', show(x[2][0], -1000)) if x[2] else ''))
+        elif nm.endswith('DerefMut::deref_mut') or nm.endswith('Deref::deref'):
+            pre = pre_of.get(x[3])
+            if pre is not None:
+                out |= _lock_sites(pre, {})
+    return out
+
+
+def check_stale_flow(facts, rep, module_filter, label, floor_sites=1):
+    """L6: a call made through guard B (a second acquisition) must not receive, as a data argument, a value that was
+    returned by a call made through guard A of the same mutex: between the two critical sections another thread may have
+    changed the protected state, so the write acts on stale data (lost update). Branching on such a value is fine as
+    long as the second section re-derives what it writes (check-then-act with revalidation)."""
+    from symex import SymEx, show, TooManyPaths
+    n_sections = 0
+    seen_v = set()
+    for key, b in sorted(facts.bodies.items()):
+        if not module_filter(b):
+            continue
+        if not any((c.callee or c.generic or '').endswith(s) for c in b.calls() for s in ('Mutex::<T>::lock', 'RwLock::<T>::write')):
+            continue
+        rep.saw(b)
+        try:
+            paths = SymEx(b, max_paths=20000).run()
+        except TooManyPaths:
+            rep.indet('E5.L6: too many paths in %s' % key)
+            continue
+        for p in paths:
+            pre_of = {}
+            for e in p.calls():
+                if (e.name.endswith('deref_mut') or e.name.endswith('Deref::deref')) and e.args:
+                    a = e.args[0]
+                    val = None
+                    if e.pre:
+                        vals = list(e.pre.values()) if isinstance(e.pre, dict) else list(e.pre)
+                        val = vals[0] if vals else None
+                    pre_of[e.site] = val if val is not None else a
+            for e in p.calls():
+                nm = e.name
+                if not e.args or nm.endswith('::lock') or nm.endswith('::unwrap') or nm.endswith('deref_mut') or nm.endswith('Deref::deref') or nm.endswith('::write') or nm.endswith('::read'):
+                    continue
+                recv = _lock_sites(e.args[0], pre_of)
+                if not recv:
+                    continue
+                n_sections += 1
+                for i, a in enumerate(e.args[1:], 1):
+                    for (s_arg, m_arg) in _lock_sites(a, pre_of):
+                        for (s_recv, m_recv) in recv:
+                            if s_arg != s_recv and m_arg == m_recv:
+                                inst = '%s|%s(.., arg %d) under a second acquisition of %s' % (key, nm.split('::')[-1], i, m_recv)
+                                if inst in seen_v:
+                                    continue
+                                seen_v.add(inst)
+                                rep.violation('E5.L6-no-stale-write', inst,
+                                              '%s: `%s` is called through a guard of %s with an argument (%s) that was read under an earlier, already released guard of the same lock; '
+                                              'another thread can change the protected state in between, so the update is computed from stale data (lost update - the result depends on the schedule)' %
+                                              (key, nm.split('::')[-1], m_recv, re.sub(r'#\d+\.\d+', '', show(a, -60))[:100]), where='%s:%s' % (b.file, e.line or b.line))
+        if not any(v.startswith(key + '|') for v in seen_v):
+            rep.ok('E5.L6-no-stale-write', '%s|no value crosses from one critical section into a write of another' % key, 'checked')
+    rep.floor('E5.L6 calls made through a lock guard (%s)' % label, n_sections, floor_sites)
